@@ -37,7 +37,7 @@ OBLIGATIONS = [
     "C12_scalar_noise_shape_refuted", "C12_float64_refuted",
 ]
 
-SCRATCH = Path("/tmp/scratch/c12/run")
+SCRATCH = Path(f"/tmp/scratch/c12-check-{os.getpid()}/run")
 
 ERR = {"LeaspyModelInputError": "ModelInputError", "LeaspyInputError": "InputError", "ValueError": "ValueError",
        "TypeError": "TypeError", "KeyError": "KeyError", "AttributeError": "AttributeError",
